@@ -39,7 +39,7 @@ Proof.
 Qed.
 
 (* ---- the (optionally unwhitened) template of a request is unique ------------------------------------------- *)
-Lemma Unwhitened_unique W cols U U' : Unwhitened W cols U -> Unwhitened W cols U' -> U = U'.
+Lemma Unwhitened_unique W sc cols U U' : Unwhitened W sc cols U -> Unwhitened W sc cols U' -> U = U'.
 Proof.
   intros [HL H] [HL' H']. apply (nth_ext _ _ [] []); [congruence|]. intros j Hj. rewrite HL in Hj.
   destruct (H j Hj) as [Hn Hv]. destruct (H' j Hj) as [Hn' Hv'].
